@@ -1844,6 +1844,7 @@ theorem inv_update {sB : Sys} (hB : Inv sB) {al : Alloc} (hle : AllocLe sB.alloc
     (hserved : ∀ cd ∈ cidrs, UsedAt al i cd ∧ cd.WF ∧ sB.alloc.blocked cd = false)
     {a'' : Alloc} (hback : al.releaseAll i cidrs = (a'', true)) (heqv : AllocEqv sB.alloc a'') (hwf'' : a''.WF)
     (hEl : ∀ v ∈ Objs sB, v.name = name → Elig sB.alloc i v.labels)
+    (hbranch : ∀ n2, getNode sB.nodeView name = some n2 → ¬ (n2.junk = false ∧ n2.cidrs = cidrs))
     (ws : List WOut) (hws : ∀ w ∈ ws.take 3, w ≠ WOut.lost) :
     Inv (updateCIDRsAllocation { sB with alloc := al } name cidrs i ws).1 := by
   have hP : Inv { sB with alloc := al } := inv_alloc_grow hB al hle hwf
@@ -1856,7 +1857,11 @@ theorem inv_update {sB : Sys} (hB : Inv sB) {al : Alloc} (hle : AllocLe sB.alloc
   | some n2 =>
     simp only [hv]
     split
-    · exact hP
+    · -- "the cache already shows exactly these CIDRs": impossible here, the blocks would still be in use
+      rename_i hcond
+      exfalso
+      simp only [Bool.and_eq_true, Bool.not_eq_true', decide_eq_true_eq] at hcond
+      exact hbranch n2 hv hcond
     · split
       · simp only [hback]
         exact hBack.congr rfl rfl rfl
@@ -1962,6 +1967,15 @@ theorem getNode_delNode_self (l : List NodeObj) (n : String) : getNode (delNode 
   intro o ho
   exact (mem_delNode.mp ho).2
 
+theorem getNode_putNode_self (l : List NodeObj) (o : NodeObj) : getNode (putNode l o) o.name = some o := by
+  cases h : getNode (putNode l o) o.name with
+  | none => exact absurd rfl (getNode_none_iff.mp h o (mem_putNode_self l o))
+  | some x =>
+    obtain ⟨hxm, hxn⟩ := mem_of_getNode h
+    rcases mem_putNode hxm with rfl | ⟨_, hne⟩
+    · rfl
+    · exact absurd hxn hne
+
 theorem inv_allocateOrOccupy {s : Sys} (h : Inv s) (n : NodeObj) (hn : n ∈ s.nodeView) (hnd : n.deleting = false)
     (refresh : Bool) (ws : List WOut) (hws : ∀ w ∈ ws.take 3, w ≠ WOut.lost) :
     Inv (allocateOrOccupy s n refresh ws).1 := by
@@ -2017,17 +2031,35 @@ theorem inv_allocateOrOccupy {s : Sys} (h : Inv s) (n : NodeObj) (hn : n ∈ s.n
               obtain ⟨hcm, _⟩ := mem_of_getNode hg
               have hB : Inv { s with nodeView := putNode s.nodeView cur, nodeQ := qAdd s.nodeQ n.name } :=
                 (inv_view_put h n.name cur hg).congr rfl rfl rfl
-              apply inv_update hB hle hwf hne hserved hback heqv hwf'' _ ws hws
-              intro v hv hvn
-              apply hEl0 v _ hvn
-              unfold Objs at hv ⊢
-              simp only [List.mem_append] at hv ⊢
-              rcases hv with (hv | hv) | hv
-              · exact Or.inl (Or.inl hv)
-              · rcases mem_putNode hv with rfl | ⟨hv, _⟩
-                · exact Or.inl (Or.inl hcm)
-                · exact Or.inl (Or.inr hv)
-              · exact Or.inr hv
+              obtain ⟨_, hcn⟩ := mem_of_getNode hg
+              apply inv_update hB hle hwf hne hserved hback heqv hwf'' _ _ ws hws
+              · intro v hv hvn
+                apply hEl0 v _ hvn
+                unfold Objs at hv ⊢
+                simp only [List.mem_append] at hv ⊢
+                rcases hv with (hv | hv) | hv
+                · exact Or.inl (Or.inl hv)
+                · rcases mem_putNode hv with rfl | ⟨hv, _⟩
+                  · exact Or.inl (Or.inl hcm)
+                  · exact Or.inl (Or.inr hv)
+                · exact Or.inr hv
+              · intro n2 hn2
+                have : getNode (putNode s.nodeView cur) n.name = some cur := by rw [← hcn]; exact getNode_putNode_self _ _
+                simp only at hn2
+                rw [this] at hn2; cases hn2
+                rintro ⟨_, hcc⟩
+                -- the API object would hold exactly the fresh blocks: but as long as the cache shows the node alive they are in use
+                obtain ⟨cd0, hcd0⟩ : ∃ cd, cd ∈ cidrs := by
+                  cases hcs : cidrs with
+                  | nil => exact absurd hcs hne
+                  | cons a _ => exact ⟨a, List.mem_cons_self ..⟩
+                obtain ⟨i', _, hu'⟩ := h.held cur (List.mem_append_left _ hcm) (by rw [hcc]; exact hne)
+                  (Or.inr ⟨n, hn, hcn.symm, hnd⟩)
+                have hb := hu' cd0 (by rw [hcc]; exact hcd0)
+                have := fresh_disjoint h.wf (hserved cd0 hcd0).2.2 (hserved cd0 hcd0).2.1 hb rfl
+                have hp := cd0.size_pos
+                unfold Cidr.Disjoint at this
+                omega
             | none =>
               simp only
               -- the item fails on its second read and gives the reservation back; then the delete handler runs
@@ -2045,7 +2077,17 @@ theorem inv_allocateOrOccupy {s : Sys} (h : Inv s) (n : NodeObj) (hn : n ∈ s.n
                   obtain ⟨hmm, hmn⟩ := mem_of_getNode hgv
                   rw [eq_of_nodup_names h.nodupView hmm hn hmn]
               exact (inv_gone hE n.name hg n hvn).congr rfl rfl rfl
-          · exact inv_update h hle hwf hne hserved hback heqv hwf'' hEl0 ws hws
+          · apply inv_update h hle hwf hne hserved hback heqv hwf'' hEl0 _ ws hws
+            intro n2 hn2
+            have hvn : getNode s.nodeView n.name = some n := by
+              cases hgv : getNode s.nodeView n.name with
+              | none => exact absurd rfl (getNode_none_iff.mp hgv n hn)
+              | some m =>
+                obtain ⟨hmm, hmn⟩ := mem_of_getNode hgv
+                rw [eq_of_nodup_names h.nodupView hmm hn hmn]
+            rw [hvn] at hn2; cases hn2
+            rintro ⟨_, hcc⟩
+            exact hne (hcc ▸ (hasCidrs_false hcf).2)
 
 
 theorem inv_procNodeCore {s : Sys} (h : Inv s) (name : String) (refresh : Bool) (ws : List WOut)
